@@ -37,10 +37,10 @@ func run(c *lib.Ctx) error {
 	if c.Thorough() {
 		bounds = []bound{{2, 1, 2}, {1, 1, 4}}
 	}
-	c.Set("bounds", map[string]any{"exhaustive": bounds, "random_histories": c.Pick(16, 300), "history_length": 40, "big_lists": []int{33, 1057}})
+	c.Set("bounds", map[string]any{"exhaustive": bounds, "random_histories": c.Pick(24, 300), "history_length": 40, "big_lists": []int{33, 1057}})
 	seen := map[string]bool{}
 	for _, b := range bounds {
-		r, err := c.TLC(fmt.Sprintf("MCAlias(steps=%d,init=%d)", b.steps, b.ninit), lib.TLCRun{Dir: dir, Module: "MCAlias", Workers: 6, Timeout: 12 * time.Minute, HeapGB: 8,
+		r, err := c.TLC(fmt.Sprintf("MCAlias(steps=%d,init=%d)", b.steps, b.ninit), lib.TLCRun{Dir: dir, Module: "MCAlias", Workers: 4, Timeout: 12 * time.Minute, HeapGB: 8,
 			Files: map[string][]byte{"MCAlias.cfg": mcCfg(b.steps, b.newAl, b.ninit)}})
 		if err != nil {
 			return err
@@ -72,7 +72,7 @@ func run(c *lib.Ctx) error {
 		c.Logf("model steps<=%d: %d distinct states, %d transitions, %d distinct behaviours", b.steps, r.Distinct, r.Generated, len(behs))
 		var mu sync.Mutex
 		n := 0
-		lib.Parallel(len(behs), 6, func(i int) {
+		lib.Parallel(len(behs), 4, func(i int) {
 			replayBehaviour(c, behs[i])
 			mu.Lock()
 			n++
@@ -86,9 +86,9 @@ func run(c *lib.Ctx) error {
 	c.Set("exhaustive", true)
 
 	// ---- V
-	nh := c.Pick(16, 300)
+	nh := c.Pick(24, 300)
 	hist := make([][]Event, nh)
-	lib.Parallel(nh, 6, func(h int) {
+	lib.Parallel(nh, 4, func(h int) {
 		kind := "nested"
 		length := 40
 		switch {
@@ -117,7 +117,7 @@ func run(c *lib.Ctx) error {
 }
 
 func judge(c *lib.Ctx, dir string, hist [][]Event) error {
-	bad, err := lib.JudgeGroups(c, "TraceAlias", dir, "TraceAlias", hist, 6, 12*time.Minute)
+	bad, err := lib.JudgeGroups(c, "TraceAlias", dir, "TraceAlias", hist, 4, 12*time.Minute)
 	if err != nil {
 		return err
 	}
